@@ -1159,10 +1159,11 @@ Proof. exact cbb_setter_spec. Qed.
 Print Assumptions C02_opaque_path_state_setter.
 
 (* M.4  C02_statement4 restricted to the histories of C02_reach_partial3 extended by quirks hostname, quirks host,
-   set_host(None), quirks pathname and set_path (on every record), each step outside known_step3 (ReachC4; canon_op4 =
-   every operation of C02_Reach.op except path_segments_mut sessions): every record is a fixpoint of re-parsing, wf_b, ASCII.
+   set_host(None), quirks pathname and set_path (on every record) and by path_segments_mut sessions on opaque paths (refused:
+   unchanged), each step outside known_step3 (ReachC4; canon_op4 = every operation of C02_Reach.op except path_segments_mut
+   sessions on records that are not cannot-be-a-base): every record is a fixpoint of re-parsing, wf_b, ASCII.
    Still missing for C02_statement4: the file scheme, joins through the path arms of the relative state and absolute
-   references against a base, an encoding override on special schemes; path_segments_mut sessions (every class). *)
+   references against a base, an encoding override on special schemes; path_segments_mut sessions on classes (ii)-(iv). *)
 Theorem C02_reach_partial4 : forall dbg hp hpo hd, HostOK2 hp hpo hd -> host_nonempty hp hpo -> forall u,
   ReachC4 dbg hp hpo hd u -> Fixpoint_of_reparse dbg hp hpo hd u /\ wf_b u = true /\ ascii (ser u).
 Proof. exact reach_partial4. Qed.
